@@ -2441,6 +2441,18 @@ def range_representatives(literals, bits, unsigned):
             vals.add((hi << 32) + l)
     lo_t, hi_t = (0, (1 << bits) - 1) if unsigned else (-(1 << (bits - 1)), (1 << (bits - 1)) - 1)
     vals |= {lo_t, hi_t, hi_t - 1, -1, -2, -MAX_UNICODE - 1, lo_t + 1}
+    # bit-test atoms (`value & C`, `value & ~C`, shifts): a literal of the guard may be used as a MASK, where the classes are not the intervals around it but the sets
+    # of bits it selects.  A bit test is monotone in the bit set, so it is decided per bit: every single bit alone (with its interval neighbours), the largest code point
+    # and every literal of the guard with exactly one bit flipped (one bit missing from / one bit added to the mask), and both ends of every 16-bit plane up to twice
+    # the unicode range (a mask with a hole drops whole planes).
+    for k in range(bits):
+        vals |= {1 << k, (1 << k) - 1, (1 << k) + 1, -(1 << k), MAX_UNICODE ^ (1 << k)}
+        if k < 33:
+            for l in literals:
+                if l > 0xff:
+                    vals |= {l ^ (1 << k), (l | (1 << k)) & ~((1 << k) - 1), l & ~(1 << k) | ((1 << k) - 1)}
+    for plane in range(0x22):
+        vals |= {plane << 16, (plane << 16) | 0xFFFF, (plane << 16) | 0x8000}
     return sorted(v for v in vals if lo_t <= v <= hi_t)
 
 
@@ -2510,9 +2522,10 @@ CHRRANGE_PC_UCHAR = '''
 
 
 def rule_chrrange(ctx):
-    """C18-CHRRANGE  (pending finding FINDING_C18_1: on the unmodified tree the guard lets every value with a bit above 2**21 pass)"""
+    """C18-CHRRANGE  (registered since the repair a3e04b332 of FINDING_C18_1).  Round 9: the representatives also decide the bit-test atoms of the guard
+    (a literal used as a mask: per-bit classes, one-bit-flipped literals, plane ends) - seed C18n wrote the mask as the largest code point 0x10ffff."""
     r = Rule('C18-CHRRANGE', "f'{c_int:c}': the range guard of __Pyx_uchar_{{TO_PY_FUNCTION}} rejects exactly the values outside 0..0x10FFFF with OverflowError and hands the accepted value on "
-             'unchanged, for signed/unsigned types of 1, 2, 4 and 8 bytes (truth table over the boundary classes of every threshold of the guard, with C truncation of the (int) cast)', floor=500)
+             'unchanged, for signed/unsigned types of 1, 2, 4 and 8 bytes (truth table over the boundary classes of every threshold of the guard and the per-bit classes of its bit tests, with C truncation of the (int) cast)', floor=3500)
     up, ubody, line = load_function(ctx, TYPECONV, 'CIntToPyUnicode', UCHAR_FN, _no_cond)
     cp, cbody, _ = load_function(ctx, TYPECONV, 'COrdinalToPyUnicode', CHECK_FN, _no_cond)
     try:
